@@ -462,6 +462,7 @@ type LoopSpec struct {
 	Inv     []Clause
 	Hints   []Clause // "use" clauses: lemma instantiations assumed at the header after proof elsewhere
 	Unreach bool
+	Decr    []Clause // loop variant (lexicographic when more than one): termination obligation at every back edge
 }
 
 type Contract struct {
@@ -471,6 +472,7 @@ type Contract struct {
 	Requires  []Clause
 	Ensures   []Clause
 	Rely []Clause
+	Decr []Clause // `decreases e`: measure of a (directly) recursive function, strictly smaller and bounded below at every recursive call
 	LockInv []Clause // invariant of the state protected by the object's lock (`opt lock`)
 	GhostSets []GhostSet // ghost assignments performed at the function's exit (before its ensures are checked)
 	ExitEnsures []Clause // atomic mode: clauses about the action log, evaluated at exit
@@ -574,7 +576,7 @@ func NewContractSet() *ContractSet {
 }
 
 var clauseKeywords = map[string]bool{
-	"func": true, "requires": true, "ensures": true, "exit_ensures": true, "rely": true, "lockinv": true, "ghostset": true, "panics_iff": true, "on_panic": true,
+	"func": true, "requires": true, "ensures": true, "exit_ensures": true, "rely": true, "lockinv": true, "ghostset": true, "panics_iff": true, "decreases": true, "on_panic": true,
 	"assigns": true, "loop": true, "inline": true, "trusted": true, "classes": true, "pure": true,
 	"property": true, "spec": true, "axiom": true, "lemma": true, "type": true, "let": true, "mode": true,
 	"opt": true, "ghost": true, "callback": true, "pair": true, "ghostvar": true, "rangecall": true, "implements": true, "bounded": true, "adt": true, "owned": true, "owns": true, "gives": true,
@@ -811,6 +813,15 @@ func (cs *ContractSet) parseFile(path string) error {
 			case "on_panic":
 				cur.OnPanic = append(cur.OnPanic, c)
 			}
+		case "decreases":
+			if cur == nil {
+				return fail("decreases outside func")
+			}
+			e, err := parse(rest)
+			if err != nil {
+				return err
+			}
+			cur.Decr = append(cur.Decr, Clause{Label: label, E: e, Src: rest})
 		case "panics_iff":
 			if cur == nil {
 				return fail("panics_iff outside func")
@@ -864,6 +875,12 @@ func (cs *ContractSet) parseFile(path string) error {
 					return err
 				}
 				ls.Hints = append(ls.Hints, Clause{E: e, Src: r3})
+			case "decreases":
+				e, err := parse(r3)
+				if err != nil {
+					return err
+				}
+				ls.Decr = append(ls.Decr, Clause{Label: lab, E: e, Src: r3})
 			case "unreachable_backedge":
 				ls.Unreach = true
 				cs.Scan = append(cs.Scan, fmt.Sprintf("%s.%s: loop %d unreachable_backedge (proved: obligation backedge-unreachable)", pkg, cur.Key, n))
